@@ -92,4 +92,39 @@ PLANS = {
   'deadline': {'quick': 200, 'thorough': 2700},
   'assumptions': A_COMMON + ["the teleported state is equivalent to the genuinely reached one because the context layer uses total_length only through total_length mod B and the padding length field; validated in the thorough tier by genuine > 4 GiB streams when built"],
  },
+ 'C08': {
+  'level': 'fault_enumeration',
+  'steps': [e3('gcm'), e3('xts', 8, 16), e3('cbc', 4, 8), e3('keyexp', 2, 4), e2('mh1', 8, 16), e2('mh256', 8, 16), e2('mur', 8, 16), e2('roll', 16, 16), e2('gcms', 16, 16),
+            e1('seg', 112), e1('explore', 112, ['--d4=1', '--d8=1', '--d16=1'])],
+  'eval_stats': ['calls_gcm', 'calls_xts', 'calls_cbc', 'calls_keyexp', 'streams', 'transitions'], 'distinct_key': None,
+  'rule': "guard-page fault enumeration: every call of the E3/E2/E1 sweeps is made with each input and output buffer placed end-flush against a PROT_NONE page and, in a second pass, start-flush right after one; inputs (data, AAD, 12-byte IV, tweak, keys, schedules, key data, rolling window) live in read-only mappings, outputs and in/out objects (context, manager, key data at exact sizeof) are surrounded by canary bytes; a fault, a damaged canary or a write to an input is a violation attributed to (entry, object, direction); zero-length calls included wherever 0 is in the documented domain (CBC through the public and legacy entry points bound to each family)",
+  'bound': {'quick': 'GCM len<=600+windows, XTS len<=1100, CBC N<=70, mh l1<=1040, rolling w+70, GCM streaming sum<=40, hash (l1,l2) in [0,2B+1]^2 x 4 occupancies + explore d<=1', 'thorough': 'the thorough grids of the functional sweeps'},
+  'deadline': {'quick': 240, 'thorough': 2700}, 'assumptions': A_COMMON + ["placements relative to huge-page or 2^32 boundaries are not covered"],
+ },
+ 'C19': {
+  'level': 'exploration',
+  'steps': [e3('gcm'), e3('xts', 8, 16), e3('cbc', 4, 8), e3('keyexp', 2, 4), e2('mh1', 8, 16), e2('mh256', 8, 16), e2('mur', 8, 16), e2('roll', 16, 16), e2('gcms', 16, 16),
+            e1('seg', 112), e1('explore', 112, ['--d4=1', '--d8=1', '--d16=1']), e1('explore', 112, ['--entry=public', '--d4=1'])],
+  'eval_stats': ['library_calls'], 'distinct_key': 'functions_called',
+  'rule': "every library call of every engine goes through an assembly trampoline that loads sentinels into rbx, rbp, r12-r15, records rsp, MXCSR, x87 CW, clears DF, lays a 256-byte canary zone above the outgoing stack arguments, poisons caller-saved registers/flags, and after return compares all of it bit for bit (MXCSR: control bits only); the calls are those of the functional sweeps (every length class / tail / main loop / lanes full or not / flush with 0..L live lanes / rejected submits), on public, legacy and family entry points; distinct = distinct entry points called",
+  'bound': {'quick': 'quick grids of E1/E2/E3', 'thorough': 'thorough grids of E1/E2/E3'},
+  'deadline': {'quick': 240, 'thorough': 2700}, 'assumptions': A_COMMON + ["internal kernels with private calling conventions (e.g. sha256_mb_x8_avx2, sha1_ni_x2) are not entry points and are excluded"],
+ },
+ 'C14': {
+  'level': 'exploration',
+  'steps': [e3('gcm'), e3('xts', 8, 16), e3('cbc', 4, 8), e3('keyexp', 2, 4), e2('gcms', 16, 16)],
+  'eval_stats': ['secret_scans'], 'distinct_key': 'shape',
+  'rule': "every AES entry point (key expansion x {128,192,256} x {sse,avx} incl. _enc; GCM key precompute incl. the public/legacy/internal C wrappers bound to every keyexp x precomp family, init, update, finalize, one-shot x 4 families x {regular,nt}; CBC enc/dec families; XTS x 3 families x raw/expanded) is called through the trampoline on the shapes that reach each exit path (length classes 0 / sub-block / each tail / each main loop); before the call zmm0-31, k0-7 and 64 KiB of dead stack are poisoned, immediately after return they are captured without using the stack and scanned at every byte offset for every 16-byte secret of the call: raw key halves, every encryption and decryption round key, H=E_K(0) in both byte orders, every entry of the hash-key table, E_K2(tweak); keys are random so a match is not a coincidence",
+  'bound': {'quick': 'GCM/XTS len<=300 (+2048, 4097), CBC N<=40, 24 keys, GCM streaming sum<=40 (every 7th composition)', 'thorough': 'len<=1100, all compositions'},
+  'deadline': {'quick': 240, 'thorough': 2700}, 'assumptions': A_COMMON + ["only state visible to the caller after return is inspected: vector/mask registers and the 64 KiB below the call's stack pointer; general-purpose registers and heap are not part of the property"],
+ },
+ 'C20': {
+  'level': 'exploration',
+  'steps': [e3('gcm'), e3('xts', 8, 16), e3('cbc', 4, 8), e3('keyexp', 2, 4), e2('mh1', 8, 16), e2('mh256', 8, 16), e2('mur', 8, 16), e2('roll', 16, 16), e2('gcms', 16, 16),
+            e1('explore', 112, ['--d4=1', '--d8=1', '--d16=1'])],
+  'eval_stats': ['pairs'], 'distinct_key': None,
+  'rule': "paired executions (self-composition): every explored case is executed under two environments that agree on the declared inputs and differ in the hidden ones - output-buffer prefill (0x00 / 0xFF), bytes of objects the API has not yet defined (manager and contexts before init/FIRST, GCM context before init, mh/stitched context before init, the unused tail of the rolling-hash history), trampoline poison of rax, r10, r11, unused argument registers, upper halves of 32-bit arguments, zmm0-31, k0-7, arithmetic flags and 64 KiB of dead stack; observables (output bytes, tags, digests, offsets, return values; for managers: which context comes back when, status, error, total length, digest, user data) must be identical; for the manager the second image is driven in lock step through the transitions chosen by the first and makes no pruning decisions",
+  'bound': {'quick': 'AES len<=300 (+2048, 4097); mh l1<=1040 (every 4th l2); rolling w+70; GCM streaming sum<=40; manager exploration d<=1', 'thorough': 'thorough grids'},
+  'deadline': {'quick': 240, 'thorough': 2700}, 'assumptions': A_COMMON + ["internal fields are compared only through behaviour (e.g. GCM init stores an undefined xmm2^xmm3 into partial_block_enc_key, which is rewritten before it is read)"],
+ },
 }
